@@ -2,6 +2,7 @@
   C01, fragment 𝔽₂ — simulation of statements: induction on the fuel of the C execution.
 -/
 import CprocVerif.Lemmas.Lower2For
+import CprocVerif.Lemmas.Lower2Switch
 import CprocVerif.Lemmas.Lower2IncDec
 
 set_option linter.unusedSimpArgs false
@@ -10,29 +11,17 @@ namespace CprocVerif.LowerMach2
 open CprocVerif.Qbe CprocVerif.Lower CprocVerif.Lower2 CprocVerif.CSem CprocVerif.CSem2 CprocVerif.CInt
 open CprocVerif.LowerArith CprocVerif.LowerMach CprocVerif.LowerMem
 
-/-- Without `switch` every statement form is covered. -/
-def noSwitch : Stmt → Bool
-  | .switch_ _ _ => false
-  | .seq a b => noSwitch a && noSwitch b
-  | .ite _ a => noSwitch a
-  | .itee _ a b => noSwitch a && noSwitch b
-  | .while_ _ b => noSwitch b
-  | .dowhile b _ => noSwitch b
-  | .for_ _ st b => noSwitch st && noSwitch b
-  | _ => true
-
-theorem frag_of_noSwitch (st : Stmt) : noSwitch st = true → frag st = true := by
+/-- every statement form is covered -/
+theorem frag_all (st : Stmt) : frag st = true := by
   induction st with
-  | seq a b iha ihb => intro h; simp only [noSwitch, Bool.and_eq_true] at h; simp [frag, iha h.1, ihb h.2]
-  | ite e a iha => intro h; simpa [frag] using iha (by simpa [noSwitch] using h)
-  | itee e a b iha ihb =>
-    intro h; simp only [noSwitch, Bool.and_eq_true] at h; simp [frag, iha h.1, ihb h.2]
-  | while_ e b ihb => intro h; simpa [frag] using ihb (by simpa [noSwitch] using h)
-  | dowhile b e ihb => intro h; simpa [frag] using ihb (by simpa [noSwitch] using h)
-  | for_ e st b ihs ihb =>
-    intro h; simp only [noSwitch, Bool.and_eq_true] at h; simp [frag, ihs h.1, ihb h.2]
-  | switch_ e b _ => intro h; simp [noSwitch] at h
-  | _ => intro _; rfl
+  | seq a b iha ihb => simp [frag, iha, ihb]
+  | ite e a iha => simpa [frag] using iha
+  | itee e a b iha ihb => simp [frag, iha, ihb]
+  | while_ e b ihb => simpa [frag] using ihb
+  | dowhile b e ihb => simpa [frag] using ihb
+  | for_ e st b ihs ihb => simp [frag, ihs, ihb]
+  | switch_ e b ihb => simpa [frag] using ihb
+  | _ => rfl
 
 section
 variable (T : Stat)
@@ -71,7 +60,7 @@ theorem sim_stmt : ∀ fuel, SimStmt T fuel := by
     | continue_ => exact sim_continue T n hex hwt hp inv
     | case_ u => exact sim_label T n (.case_ u) (Or.inl ⟨u, rfl⟩) hex hp hits inv
     | default_ => exact sim_label T n .default_ (Or.inr rfl) hex hp hits inv
-    | switch_ e b => simp [frag] at hfr
+    | switch_ e b => exact sim_switch T n ihle e b hex hfr hwt hp hext hits hlp inv
 
 end
 
